@@ -130,6 +130,18 @@ func metaAlphabet() []lx.Op {
 	}
 }
 
+// metaOnlyOps create accounts that carry metadata without taking part in any posting,
+// from inside a create-transaction (AccountMetadata parameter, set_account_meta in a
+// script). The addresses sort AFTER every posting account ("world" included) and, for the
+// second pair, BETWEEN them: the list handed to UpsertAccounts is a sorted merge of both
+// sets (seeded change C08 dropped a metadata-only account sorting last).
+func metaOnlyOps() []lx.Op {
+	return []lx.Op{
+		{Kind: "post", Name: "create-metaonly-param", Postings: []lx.P{p("world", "a", "USD", "2")}, AccMeta: map[string]map[string]string{"zz:last": {"only": "param"}, "m:mid": {"only": "param"}}},
+		{Kind: "script", Name: "script-metaonly", Script: "send [USD 2] (\n source = @world\n destination = @a\n)\nset_account_meta(@zz:script, \"only\", \"script\")\nset_account_meta(@b:mid, \"only\", \"script\")"},
+	}
+}
+
 func featureCombos(keys ...string) [][]lx.LedgerSpec {
 	values := map[string][]string{
 		"ACCOUNT_METADATA_HISTORY":                    {"SYNC", "DISABLED"},
@@ -220,7 +232,7 @@ func init() {
 	})
 	registerSeq(seqCheck{
 		id: "C18", quick: 100 * time.Second, thor: 15 * time.Minute, depthQ: 3, depthT: 4,
-		alphabet: append(append([]lx.Op{}, coreAlphabet()[:9]...), metaAlphabet()[7:11]...), restart: true,
+		alphabet: append(append(append([]lx.Op{}, coreAlphabet()[:9]...), metaAlphabet()[7:11]...), metaOnlyOps()...), restart: true,
 		sigs: []string{"acc:missing", "acc:unexpected", "acc:first-usage", "acc:insertion-date", "acc:order", "pit:acc:set", "pit:acc:unexpected", "read:", "ref:"},
 		check: func(ctx context.Context, s *lx.StepInfo, rep *lx.Report) {
 			lx.CheckCurrent(ctx, s.Ctrl, s.Ref, rep)
@@ -231,9 +243,10 @@ func init() {
 	})
 	registerSeq(seqCheck{
 		id: "C17", quick: 110 * time.Second, thor: 15 * time.Minute, depthQ: 3, depthT: 4,
-		alphabet: metaAlphabet(), restart: true,
+		alphabet: append(metaAlphabet(), metaOnlyOps()[1]), restart: true,
 		configs: featureCombos("ACCOUNT_METADATA_HISTORY", "TRANSACTION_METADATA_HISTORY"),
-		sigs:    []string{"tx:metadata", "acc:metadata", "pit:tx:metadata", "pit:acc:metadata", "tx:get-mismatch", "read:", "ref:"},
+		// acc:missing: metadata written to an account that cannot be read back at all
+		sigs: []string{"acc:missing", "tx:metadata", "acc:metadata", "pit:tx:metadata", "pit:acc:metadata", "tx:get-mismatch", "read:", "ref:"},
 		check: func(ctx context.Context, s *lx.StepInfo, rep *lx.Report) {
 			lx.CheckCurrent(ctx, s.Ctrl, s.Ref, rep)
 			lx.CheckPIT(ctx, s.Ctrl, s.Ref, rep)
@@ -243,7 +256,7 @@ func init() {
 	})
 	registerSeq(seqCheck{
 		id: "C08", quick: 100 * time.Second, thor: 15 * time.Minute, depthQ: 3, depthT: 4,
-		alphabet: append(append([]lx.Op{}, coreAlphabet()...), metaAlphabet()[9:11]...), restart: false,
+		alphabet: append(append(append([]lx.Op{}, coreAlphabet()...), metaAlphabet()[9:11]...), metaOnlyOps()...), restart: false,
 		sigs: []string{"journal:", "log:count", "log:order", "log:id", "read:", "ref:"},
 		check: func(ctx context.Context, s *lx.StepInfo, rep *lx.Report) {
 			lx.CheckJournal(ctx, s, rep)
